@@ -245,10 +245,16 @@ func runStore(a Args) *Result {
 			}
 			sort.Slice(offs, func(i, j int) bool { return offs[i] < offs[j] })
 		}
+		// a temp file left behind by an earlier interrupted save, longer than what is written now
+		leftover := pi%3 == 1
+		junk := bytes.Repeat([]byte("#"), L+200)
 		for _, n := range offs {
 			for _, mode := range []string{"kill", "efbig"} {
 				d := fmt.Sprintf("%s-%d-%s", base, n, mode)
 				_ = copyDir(base, d)
+				if leftover {
+					_ = os.WriteFile(filepath.Join(d, "kvass-shard.json.tmp"), junk, 0644)
+				}
 				cmd := exec.Command(self, "store-child", d, reqFile, fmt.Sprint(n), mode)
 				_ = cmd.Run()
 				mainB, errM := os.ReadFile(filepath.Join(d, "kvass-shard.json"))
@@ -263,6 +269,8 @@ func runStore(a Args) *Result {
 						return 2, 0
 					case bytes.HasPrefix(newBytes, b):
 						return 3, len(b)
+					case leftover && bytes.Equal(b, junk):
+						return 5, 0
 					}
 					return 4, len(b)
 				}
@@ -294,6 +302,7 @@ func runStore(a Args) *Result {
 				w := &ints{}
 				w.add(int64(len(all)-1), int64(L))
 				w.bool(hadOld)
+				w.bool(leftover)
 				w.add(int64(o.mainKind), int64(o.mainK), int64(o.tmpKind), int64(o.tmpK), int64(o.loaded))
 				lines = append(lines, w.String())
 				res.Evaluations++
@@ -305,6 +314,9 @@ func runStore(a Args) *Result {
 		_ = os.RemoveAll(base)
 		_ = os.Remove(reqFile)
 		res.count(fmt.Sprintf("pair_old%d_new%d_bytes%d", na, nb, L))
+		if leftover {
+			res.count("pairs_with_leftover_temp_file")
+		}
 	}
 	res.Distinct = distinct
 	answers, err := runDriver(a.driver, "store", lines)
